@@ -383,6 +383,10 @@ func (st *runState) finishWith(ri *simcheck.RunInfo, sim *simrt.Sim, sys *System
 	if sim.Livelock != "" {
 		add("C05", "livelock", "livelock: "+sim.Livelock, sim.Livelock)
 	}
+	for _, mr := range sim.MapRaces {
+		// two goroutines inside one Go map at the same instant abort the process ("concurrent map read and map write")
+		add("C05", "unguarded-shared-map", "shared map accessed without its lock: "+reNumsRun.ReplaceAllString(mr, ""), mr)
+	}
 	for _, code := range sim.Exits {
 		add("C05", "process-exit", fmt.Sprintf("os.Exit(%d) reached", code), "the server called os.Exit")
 	}
@@ -1116,3 +1120,5 @@ func siteOnly(s string) string {
 	}
 	return s
 }
+
+var reNumsRun = regexp.MustCompile(`r[0-9.]+|[0-9]+ goroutines`)
